@@ -40,7 +40,7 @@ class BoxEngine(Engine):
     max_ops = 40
     expected_probes = ['cache_warm_when_vects_changed', 'refused_raised', 'scribble_returned',
                        'scribble_passed', 'on_face_exact', 'nonnorm_cell', 'reexpress_norm',
-                       'reexpress_nonnorm', 'list_input', 'scalar_point', 'model_roundtrip', 'model_of_other_cell_read', 'noncontiguous_points', 'cube_rotated_cell', 'bulk_points_query', 'classmethod_same_arguments_again', 'integer_typed_lengths', 'integer_typed_cartesian_points', 'bystander_call',
+                       'reexpress_nonnorm', 'list_input', 'scalar_point', 'model_roundtrip', 'model_of_other_cell_read', 'noncontiguous_points', 'cube_rotated_cell', 'bulk_points_query', 'classmethod_same_arguments_again', 'integer_typed_lengths', 'integer_typed_cartesian_points', 'bystander_call', 'earlier_definition_repeated',
                        'scribble_returned_planes']
     rule = ('Each run drives ONE Box object (occasionally replaced by a constructor or deepcopy) through up to 40 '
             'seeded operations: the five setter families (set_vectors, set_abc, set_lengths, set_hi_los, '
@@ -141,6 +141,10 @@ class BoxEngine(Engine):
                            ('ctor', 0.7), ('classmethod', 0.4)])
         via = r.choice(['method', 'set'])
         op = {'op': how, 'via': via}
+        if st.get('set_hist') and r.random() < 0.15:
+            # the same definition as some time ago, after the object has meanwhile been given other cells
+            ctx.probe('earlier_definition_repeated')
+            return dict(r.choice(st['set_hist']))
         if how in ('set_vectors', 'vects_attr'):
             V, o = self._cell(ctx, st, general=True)
             op['V'] = V
@@ -272,6 +276,11 @@ class BoxEngine(Engine):
         if k in SETTERS:
             self._apply_set(ctx, st, op)
             ctx.changes += 1
+            if k in ('set_abc', 'set_lengths', 'set_hi_los', 'set_vectors'):
+                hist = st.setdefault('set_hist', [])
+                if op not in hist:
+                    hist.append(op)
+                    del hist[:-4]
         elif k == 'query':
             self._apply_query(ctx, st, op)
         elif k == 'reexpress':
@@ -501,6 +510,12 @@ class BoxEngine(Engine):
             return x
 
         got_cart = ctx.must('C01.B4', box.position_relative_to_cartesian, give(rel), klass='rel2cart/' + klass)
+        held = st.get('held')
+        if held is not None and not np.array_equal(held[0], held[1]):
+            raise Violation('C01.B7', {'what': 'an array returned by an earlier conversion changed when the Box was asked again',
+                                       'was': held[1], 'now': held[0]}, klass='result-overwritten')
+        if isinstance(got_cart, np.ndarray) and got_cart.ndim:
+            st['held'] = (got_cart, np.array(got_cart, copy=True))
         mag = float(np.abs(rel).max()) + 1.0
         if not close(got_cart, cart, atol=tol * size * mag):
             raise Violation('C01.B4', {'what': 'relative->cartesian differs from model', 'rel': rel, 'got': got_cart,
